@@ -20,6 +20,22 @@ CHECKS = {
     "C07": dict(text="Hostile streams (random, hostile fields, every first word 0x184Dxxxx sampled/complete, long single-field repetitions) under a per-call watchdog; "
                      "expected error classes for the magic rules; heap growth bounded; Reader model (a total Lean function) agrees.",
                 technique="Lean 4 total Reader model correspondence + watchdog/heap oracle", note=_FRAME_NOTE),
+    "C08": dict(text="Two labelled transition systems (Lz4V/Model/PipeW.lean, PipeR.lean) mirror the goroutine pipelines statement by statement; order, buffer ownership "
+                     "(no use after release, no two owners), deadlock-freedom, termination and no-leak are proved for every schedule, every block count, every queue capacity. "
+                     "Tie to the code: with the verif hooks every channel operation of a real run is logged and the log is validated against the transition system's event "
+                     "order (Lean validTrace); seeded schedule perturbation at the hook sites; buffers poisoned when returned to the pools; goroutine count back to baseline; "
+                     "the same sessions under the Go race detector. Partial by nature: races below buffer granularity, scheduler fairness and blocking sinks are seen only by "
+                     "the race-detector/watchdog runs.", technique="Lean 4 LTS theorems over all schedules + event-trace validation, race detector", note=_FRAME_NOTE),
+    "C18": dict(text="Model of CompressingReader and its overflow writer agrees with the real object on every Read call (count, bytes, error) for random buffer-size sequences "
+                     "incl. 0/1/tiny/huge, options, fragmenting and failing sources; the concatenated output is decoded by the strict Lean frame spec.",
+                technique="Lean 4 model correspondence + strict frame spec oracle", note=_FRAME_NOTE),
+    "C19": dict(text="Header acceptance proved exact on the Reader model for all descriptor bytes, content sizes and checksum bytes (symbolic, no enumeration) and agreement with "
+                     "the independent spec's header grammar; the real ValidFrameHeader/Reader/Size are enumerated over all 65536 descriptors (quick: 4 checksum bytes each; thorough: all 256, "
+                     "exhaustive) incl. a long-lived Reader reused through Reset.", technique="Lean 4 theorem (symbolic) + exhaustive enumeration of the real code", note=_FRAME_NOTE),
+    "C20": dict(text="lz4c is built from the working tree and run on generated files/flag sets (files and stdin/stdout); the .lz4 bytes must equal what the Lean Writer model emits for the "
+                     "options the usage text promises, the strict Lean frame spec must accept them with those parameters, and bytes and permission bits must be restored. "
+                     "Partial: pre-existing outputs (no O_TRUNC), multi-file runs (fail on the second file on the unchanged tree: recorded in DESIGN.md) and the progress bar are outside.",
+                technique="Lean 4 Writer model predicts lz4c output + spec oracle + differential run of the binary", note=_FRAME_NOTE),
     "C09": dict(text="Every frame emitted in a clean session is decoded by the strict Lean frame specification (version, reserved bits, header checksum, configured content "
                      "size, block maximum, checksums over the designated bytes, end mark) resp. the legacy specification; Writer model byte-identical.",
                 technique="Lean 4 strict frame spec oracle + Writer model correspondence", note=_FRAME_NOTE),
